@@ -116,6 +116,14 @@ def run_problem(desc):
         circuits, observables = subcircuits, subobs
         ids_by, mapsel = CE._get_mapping_ids_by_partition(subcircuits)
         bases = CE._get_bases_by_partition(subcircuits, ids_by)
+    if ns == np.inf:
+        total = 1
+        for b in bases:
+            total *= len(b.maps)
+        if total > 600:
+            # an exact budget enumerates prod(#maps) samples per group and partition: too costly here.  Recorded in the
+            # description, so that a replay runs the same finite budget.
+            desc["num_samples"] = ns = 1 + desc["seed"] % 8
     np.random.seed(desc["seed"])
     subexps, coeffs = generate_cutting_experiments(circuits, observables, ns)
     if flow == "single":
